@@ -3,8 +3,9 @@ import RlibModel.Model.Tensor
 
 Lists are comma separated without blanks, `-` is the empty list (rank 0).
 * `get  <dims> <idx>`                 — `from_vec(dims, 0..n).get_index(idx)`
-* `at   <dims> <idx>`                 — `t[idx]`, then `t[idx] = -1` and the list of storage positions that changed
-* `ctor <kind> <dims> <len>`          — `kind` ∈ vec | slice | new | read, data / tokens `0..len`
+* `at   <kind> <dims> <idx>`          — tensor built by `kind`; `t[idx]` and, independently, `t[idx] = -1` followed by a
+                                        comparison of every cell with its old value (`v=… set=[changed cells]`)
+* `ctor <kind> <dims> <len>`          — `kind` ∈ vec | slice | new | read, data / tokens `0..len`; prints shape and contents
 * `iter <dims>`                       — `t[idx] = code(idx)` for every index, then `iter()`
 * `eq   <dimsA> <dimsB> <dataA> <dataB>`
 * `write <ty> <dims> <data>`          — `ty` ∈ i64 | str; the bytes of `Writable` (blank → `_`, newline → `/`)
@@ -34,29 +35,71 @@ def lexLtB : List Nat → List Nat → Bool
   | i :: is, j :: js => i < j || (i == j && lexLtB is js)
   | _, _ => false
 
+/-- panic classes as the property sees them: "rejected with a panic".  The raw result keeps a coarse
+    class (`assert!`, explicit panic, slice index and `unwrap` are one class, arithmetic overflow another);
+    views and `S` only say `panic`. -/
+def showP : Panic → String
+  | .overflow => "panic:overflow"
+  | .fuel => "fuel"
+  | _ => "panic:reject"
+
+def showE {α} (f : α → String) : Except Panic α → String
+  | .ok a => f a
+  | .error e => showP e
+
+def viewE {α} (f : α → String) : Except Panic α → String
+  | .ok a => f a
+  | .error .fuel => "fuel"
+  | .error _ => "panic"
+
 def handleGet (dims idx : List Nat) : String :=
   if idx.length ≠ dims.length ∨ ¬ allPos dims then "M INVALID | V INVALID | S any" else
-  let s := if decide (InRange dims idx) then toString (flat dims idx) else "panic:assert"
-  answer (showExcept toString (getIndexU dims idx)) s
+  let s := if decide (InRange dims idx) then toString (flat dims idx) else "panic"
+  let r := getIndexU dims idx
+  answer3 (showE toString r) (viewE toString r) s
 
-def handleAt (dims idx : List Nat) : String :=
-  if idx.length ≠ dims.length ∨ ¬ allPos dims then "M INVALID | V INVALID | S any" else
+/-- contents of a tensor: all elements up to 64, a position-weighted digest beyond -/
+def showData (xs : List Int) : String :=
+  if xs.length ≤ 64 then "data=" ++ showInts xs
+  else
+    let (d, _) := xs.foldl (fun (p : Int × Int) x => ((p.1 + p.2 * x) % 1000000007, p.2 + 1)) (0, 1)
+    s!"digest={d}"
+
+def buildKind (kind : String) (dims : List Nat) : Option (Except Panic (Tensor Int)) :=
   let n := prod dims
   let data : List Int := (List.range n).map (fun (k : Nat) => Int.ofNat k)
-  match fromVec dims data with
-  | .error e => answer e.toString "any"
-  | .ok t =>
-    let m :=
-      match index t idx with
-      | .error e => e.toString
-      | .ok v =>
-        match setAt t idx (-1) with
-        | .error e => s!"v={v} set={e}"
-        | .ok t' =>
-          let changed := (List.range n).filter (fun k => t'.data[k]? != t.data[k]?)
-          s!"v={v} set={showNats changed}"
-    let s := if decide (InRange dims idx) then s!"v={flat dims idx} set=[{flat dims idx}]" else "panic:assert"
-    answer m s
+  match kind with
+  | "vec" => some (fromVecU dims data)
+  | "slice" => some (fromSliceU dims data)
+  | "new" => some (newU dims (7 : Int))
+  | "read" =>
+    let toks : List (List Char) := data.map (fun k => (toString k).toList)
+    some (match readU dims (tokRd (fun cs => (String.ofList cs).toInt?.getD 0) (0 : Int)) toks with
+      | .error e => .error e
+      | .ok (t, _) => .ok t)
+  | _ => none
+
+/-- `t[idx]` and `t[idx] = -1` are evaluated independently (the write also when the read panicked);
+    after the write every cell is compared with its old value. -/
+def handleAt (kind : String) (dims idx : List Nat) : String :=
+  if idx.length ≠ dims.length ∨ ¬ allPos dims ∨ prod dims > 100000 then "M INVALID | V INVALID | S any" else
+  let n := prod dims
+  match buildKind kind dims with
+  | none | some (.error _) => "M INVALID | V INVALID | S any"
+  | some (.ok t) =>
+    let rv := index t idx
+    let rs : Except Panic (List Nat) :=
+      match setAt t idx (-1) with
+      | .error e => .error e
+      | .ok t' => .ok ((List.range n).filter (fun k => t'.data[k]? != t.data[k]?))
+    let m := s!"v={showE toString rv} set={showE showNats rs}"
+    let v := s!"v={viewE toString rv} set={viewE showNats rs}"
+    let s :=
+      if decide (InRange dims idx) then
+        let k := flat dims idx
+        s!"v={if kind = "new" then 7 else k} set=[{k}]"
+      else "v=panic set=panic"
+    answer3 m v s
 
 def handleCtor (kind : String) (dims : List Nat) (len : Nat) : String :=
   let zero := dims.any (· == 0)
@@ -64,39 +107,33 @@ def handleCtor (kind : String) (dims : List Nat) (len : Nat) : String :=
   -- huge shapes are only probed with short data (the harness never allocates them)
   if ¬ zero ∧ ¬ big ∧ kind ≠ "vec" ∧ kind ≠ "slice" ∧ prod dims > 100000 then "M INVALID | V INVALID | S any" else
   let data : List Int := (List.range len).map (fun (k : Nat) => Int.ofNat k)
-  let showT (r : Except Panic (Tensor Int)) : String :=
-    match r with
-    | .error e => e.toString
-    | .ok t => s!"ok dims={showNats t.dims} len={t.data.length}"
-  let rej : Option String := if zero then some "panic:assert" else if big then some "panic:overflow" else none
+  let showT (t : Tensor Int) : String := s!"ok dims={showNats t.dims} len={t.data.length} {showData t.data}"
+  let bad : Bool := zero || big
+  let specOk (xs : List Int) : String := s!"ok dims={showNats dims} len={xs.length} {showData xs}"
+  let fin (r : Except Panic (Tensor Int)) (s : String) : String := answer3 (showE showT r) (viewE showT r) s
   match kind with
-  | "vec" =>
-    answer (showT (fromVecU dims data))
-      (match rej with | some r => r | none => if prod dims ≠ len then "panic:assert" else s!"ok dims={showNats dims} len={len}")
-  | "slice" =>
-    answer (showT (fromSliceU dims data))
-      (match rej with | some r => r | none => if prod dims ≠ len then "panic:assert" else s!"ok dims={showNats dims} len={len}")
-  | "new" =>
-    answer (showT (newU dims (7 : Int))) (match rej with | some r => r | none => s!"ok dims={showNats dims} len={prod dims}")
+  | "vec" => fin (fromVecU dims data) (if bad || prod dims ≠ len then "panic" else specOk data)
+  | "slice" => fin (fromSliceU dims data) (if bad || prod dims ≠ len then "panic" else specOk data)
+  | "new" => fin (newU dims (7 : Int)) (if bad then "panic" else specOk (List.replicate (prod dims) 7))
   | "read" =>
-    if rej.isNone ∧ len < prod dims then "M INVALID | V INVALID | S any" else
+    if ¬ bad ∧ len < prod dims then "M INVALID | V INVALID | S any" else
     let toks : List (List Char) := data.map (fun k => (toString k).toList)
     let r := readU dims (tokRd (fun cs => (String.ofList cs).toInt?.getD 0) (0 : Int)) toks
-    answer (showT (match r with | .error e => .error e | .ok (t, _) => .ok t))
-      (match rej with | some r => r | none => s!"ok dims={showNats dims} len={prod dims}")
+    fin (match r with | .error e => .error e | .ok (t, _) => .ok t)
+      (if bad then "panic" else specOk (data.take (prod dims)))
   | _ => "M INVALID | V INVALID | S any"
 
 def handleIter (dims : List Nat) : String :=
   if ¬ allPos dims then "M INVALID | V INVALID | S any" else
   match new dims (0 : Int) with
-  | .error e => answer e.toString "any"
+  | .error e => answer (showP e) "any"
   | .ok t0 =>
     let r := (allIdx dims).foldl (fun (acc : Except Panic (Tensor Int)) idx =>
       match acc with
       | .error e => .error e
       | .ok t => setAt t idx (code idx)) (.ok t0)
     let m := match r with
-      | .error e => e.toString
+      | .error e => showP e
       | .ok t => showInts (iter t)
     let s := showInts ((List.range (prod dims)).map (fun k => code (unflat dims k)))
     answer m s
@@ -116,10 +153,10 @@ def validTok (ty : String) (tok : String) : Bool :=
 def handleWrite (ty : String) (dims : List Nat) (data : List String) : String :=
   if ¬ allPos dims ∨ prod dims ≠ data.length ∨ ¬ data.all (validTok ty) then "M INVALID | V INVALID | S any" else
   match fromVec dims data with
-  | .error e => answer e.toString "any"
+  | .error e => answer (showP e) "any"
   | .ok t =>
     let m := match writeText (renderTok ty) t with
-      | .error e => e.toString
+      | .error e => showP e
       | .ok cs => escape cs
     let s := escape (renderPieces (renderTok ty) (specPieces dims data))
     answer m s
@@ -127,11 +164,11 @@ def handleWrite (ty : String) (dims : List Nat) (data : List String) : String :=
 def handleDebug (dims : List Nat) (data : List String) : String :=
   if ¬ allPos dims ∨ prod dims ≠ data.length ∨ ¬ data.all (validTok "i64") then "M INVALID | V INVALID | S any" else
   match fromVec dims data with
-  | .error e => answer e.toString "any"
+  | .error e => answer (showP e) "any"
   | .ok t =>
     let render := renderTok "i64"
     let m := match debugText render t with
-      | .error e => e.toString
+      | .error e => showP e
       | .ok cs => escape cs
     let D := dims.length
     let viaPieces := List.replicate D '[' ++ ((specPieces dims data).map (renderPieceDbg render)).flatten ++ List.replicate D ']'
@@ -144,13 +181,13 @@ def handleRt (ty : String) (dims : List Nat) (data : List String) : String :=
   -- elements are kept in canonical text form (`i64`: the decimal rendering of the value)
   let canon : List String := data.map (fun d => String.ofList (renderTok ty d))
   match fromVec dims canon with
-  | .error e => answer e.toString "any"
+  | .error e => answer (showP e) "any"
   | .ok t =>
     let m := match writeText (fun (s : String) => s.toList) t with
-      | .error e => e.toString
+      | .error e => showP e
       | .ok cs =>
         match read dims (tokRd (fun cs => String.ofList cs) "") (splitWs cs) with
-        | .error e => e.toString
+        | .error e => showP e
         | .ok (u, rest) => s!"eq={showBool (eq u t)} data={showList u.data} eof={showBool rest.isEmpty}"
     answer m s!"eq=true data={showList canon} eof=true"
 
@@ -160,9 +197,9 @@ def handle (line : String) : String :=
     match parseNatsComma? d, parseNatsComma? i with
     | some dims, some idx => handleGet dims idx
     | _, _ => badLine line
-  | ["at", d, i] =>
+  | ["at", kind, d, i] =>
     match parseNatsComma? d, parseNatsComma? i with
-    | some dims, some idx => handleAt dims idx
+    | some dims, some idx => handleAt kind dims idx
     | _, _ => badLine line
   | ["ctor", kind, d, len] =>
     match parseNatsComma? d, parseNat? len with
